@@ -68,6 +68,12 @@ HAND = [
     ([("ig", "d"), ("ig/f", "f"), ("ig/ig", "f"), ("v", "d"), ("v/ig", "d"), ("v/ig/q", "f"), ("v/w", "f"),
       ("v/x.o", "f"), ("li", "li:v")], ["v", "v/ig"], ["v/w"], ["ig", "*.o"], [],
      ["", "ig", "ig/f", "v", "v/ig", "v/x.o", "li"]),
+    # sibling directories whose names are string prefixes of each other (doc / docs / doc-x), named together
+    ([("doc", "d"), ("doc/p", "f"), ("docs", "d"), ("docs/q", "f"), ("docs/r", "d"), ("docs/r/s", "f"),
+      ("doc-x", "d"), ("doc-x/t", "f"), ("z", "f")], [], ["z"], [], [], ["doc", "docs", "doc-x", "docs/r", "z"]),
+    # negated ignore patterns that re-include part of what an earlier pattern excludes (git), or nothing (bzr)
+    ([("o", "d"), ("o/keep.log", "f"), ("o/x.log", "f"), ("o/out", "d"), ("o/out/keep", "f"), ("o/out/junk", "f"),
+      ("z", "f")], [], ["z"], ["*.log", "!keep.log", "out/*", "!out/keep"], [], ["", "o", "o/out", "o/x.log"]),
     # an already versioned directory with a plain ".bzr" subdirectory (tree-reference view of the dirstate tree)
     ([("m", "d"), ("m/.bzr", "d"), ("m/b", "f"), ("m/q", "f"), ("m/s", "d"), ("m/s/y", "f"), ("z", "f")],
      ["m"], ["z"], [], [], ["", "m", "m/b", "m/s", "m/s/y", "z"]),
@@ -104,7 +110,7 @@ def cases(rng, tier):
         for fmt in ("bzr", "git"):
             subsets = [s for k in (1, 2, 3) for s in itertools.combinations(names, k)]
             if tier == "quick":
-                subsets = subsets[:28] + rng.sample(subsets[28:], min(22, len(subsets) - 28))
+                subsets = subsets[:28] + rng.sample(subsets[28:], max(0, min(22, len(subsets) - 28)))
             subsets += [tuple(reversed(s)) for s in subsets if len(s) == 2]      # order of the names matters
             for s in subsets:
                 for rec in (True, False) if len(s) < 3 else (True,):
@@ -113,7 +119,7 @@ def cases(rng, tier):
     yield _inp("bzr", [("f", "f")], [], [], [], [".bzr/checkout"], True)
     yield _inp("bzr", [("f", "f")], [], [], [], ["f", "nope"], True)
     yield _inp("git", [("f", "f")], [], [], [], ["nope", "f"], False)
-    n = 600 if tier == "quick" else 5000
+    n = 500 if tier == "quick" else 5000
     for _ in range(n):
         fmt = "bzr" if rng.random() < 0.6 else "git"
         lay = _random_layout(rng, fmt)
@@ -146,9 +152,28 @@ def cases(rng, tier):
                     if stem not in confl:
                         confl.append(stem)
         ign = [x for x in ["ig", "*.o", "*.tmp", "./v/ig", "n", "u/*", "m"] if rng.random() < 0.25]
+        if fmt == "git" and rng.random() < 0.35:
+            # an exclude pattern followed by a negated pattern that re-includes part of what it matched
+            ign = [x for x in ign if x != "./v/ig"] + rng.choice(
+                [["*.tmp", "!t.tmp"], ["*.o", "!x.o"], ["u/*", "!u/n", "!u/a"], ["ig", "!ig"], ["/*", "!/v", "!/a", "!/u"],
+                 ["m", "n", "!n"], ["*.tmp", "*.o", "!q.tmp", "!x.o"]])
+        pair = []
+        if rng.random() < 0.12:
+            # two sibling directories one of whose names is a string prefix of the other (doc / docs)
+            dirs = [""] + [p for p, k in lay if k == "d" and not _is_ctl_path(p)]
+            d = rng.choice(dirs)
+            pre = d + "/" if d else ""
+            a, b = rng.choice([("doc", "docs"), ("lib", "lib64"), ("a", "a-b"), ("n", "n.d")])
+            have = {p for p, _k in lay}
+            if pre + a not in have and pre + b not in have and not any(kinds.get(x, "d") != "d" for x in _prefixes(pre + a)[:-1]):
+                lay += [(pre + a, "d"), (pre + a + "/p", "f"), (pre + b, "d"), (pre + b + "/q", "f"), (pre + b + "/r", "d"),
+                        (pre + b + "/r/s", "f")]
+                pair = [pre + a, pre + b]
         cand = _nameable(lay, fmt)
         k = rng.choice([1, 1, 1, 2, 2, 3])
         named = [rng.choice(cand) for _ in range(k)]
+        if pair:
+            named = (pair if rng.random() < 0.5 else pair[::-1]) + named[:1]
         if rng.random() < 0.04:
             named.insert(rng.randrange(len(named) + 1), "zz-missing")
         if fmt == "bzr" and rng.random() < 0.03:
@@ -176,6 +201,27 @@ def _entries(wt, fmt):
                     e = e.this or e.other or e.ancestor
                 out.append([raw.decode("utf-8"), "l" if stat.S_ISLNK(e.mode) else "f"])
     return sorted(out, key=lambda e: e[0].encode())
+
+
+def _reference_ignored(wt, base, before):
+    """Which paths are ignored in a git tree, decided independently of GitWorkingTree.is_ignored: breezy's
+    global ignore globs, then the .gitignore rule "the LAST matching pattern decides" evaluated with
+    dulwich's pattern matcher (code outside /repo).  The model is fed the tree's own answers; the oracle
+    uses this reference, so a wrong is_ignored shows up as a property violation."""
+    from breezy import globbing, ignores
+    from dulwich.ignore import IgnoreFilterManager
+    from dulwich.repo import Repo
+    glob = globbing.ExceptionGlobster(set(ignores.get_runtime_ignores()) | set(ignores.get_user_ignores()))
+    mgr = IgnoreFilterManager.from_repo(Repo(base))
+    out = []
+    for p, k in before:
+        if glob.match(p) is not None:
+            out.append(p)
+            continue
+        ps = list(mgr.find_matching(p + "/" if k == "d" else p))
+        if ps and ps[-1].is_exclude:
+            out.append(p)
+    return out
 
 
 def impl(inp):
@@ -206,7 +252,8 @@ def impl(inp):
         with wt.lock_read():
             ign = [p for p, _k in before if wt.is_ignored(p) is not None]
             confl = sorted(c.path for c in wt.conflicts())
-        facts = {"before": [list(e) for e in before], "vs": vs, "ign": ign, "confl": confl}
+            ign_ref = _reference_ignored(wt, base, before) if fmt == "git" else ign
+        facts = {"before": [list(e) for e in before], "vs": vs, "ign": ign, "confl": confl, "ign_ref": ign_ref}
         _cache[_key(inp)] = facts
         exc = None
         try:
@@ -252,7 +299,7 @@ def _expected(inp, facts):
     kids = {}
     for p in kinds:
         kids.setdefault(p.rsplit("/", 1)[0] if "/" in p else "", []).append(p)
-    ign = set(facts["ign"])
+    ign = set(facts.get("ign_ref", facts["ign"]))
     helper = {c + s for c in facts["confl"] for s in (".THIS", ".BASE", ".OTHER")}
     before = {p for p, _ in facts["vs"]}
     exp = set(before)
